@@ -227,7 +227,12 @@ func (x *FnExec) execInstr(b *ssa.BasicBlock, in ssa.Instruction, st *State) boo
 		x.rets = append(x.rets, exitRec{st: st.clone(), results: rs, what: fmt.Sprintf("return@b%d", b.Index)})
 		return false
 	case *ssa.Panic:
-		x.panics = append(x.panics, exitRec{st: st.clone(), what: "explicit panic"})
+		pv := x.value(in.X)
+		ptyp := ""
+		if pv.IsComp() && len(pv.F) == 2 {
+			ptyp = pv.F[0].T
+		}
+		x.panics = append(x.panics, exitRec{st: st.clone(), what: "explicit panic", ptyp: ptyp, final: x.inDefers, nDefers: len(x.deferStack)})
 		return false
 	default:
 		x.errorf("unsupported instruction %T: %s", in, in)
@@ -277,12 +282,16 @@ func (x *FnExec) zeroRange(st *State, el types.Type, ptr, n Term) {
 
 // panicIf records a panic source and continues under its negation.
 func (x *FnExec) panicIf(st *State, cond Term, what string) {
+	x.panicIfTyp(st, cond, what, "")
+}
+
+func (x *FnExec) panicIfTyp(st *State, cond Term, what string, ptyp Term) {
 	if cond == "false" {
 		return
 	}
 	ps := st.clone()
 	ps.reach = x.ctx.Define("R_panic", SBool, And(st.reach, cond))
-	x.panics = append(x.panics, exitRec{st: ps, what: what})
+	x.panics = append(x.panics, exitRec{st: ps, what: what, ptyp: ptyp, final: x.inDefers, nDefers: len(x.deferStack)})
 	st.reach = x.ctx.Define("R", SBool, And(st.reach, Not(cond)))
 }
 
@@ -568,9 +577,14 @@ func (x *FnExec) typeAssert(in *ssa.TypeAssert, st *State) {
 	v := x.value(in.X)
 	var ok Term
 	var res Val
-	if _, isIface := in.AssertedType.Underlying().(*types.Interface); isIface {
-		ok = x.ctx.Fresh("implements", SBool)
-		x.ctx.Assert(Implies(ok, Not(Eq(v.F[0].T, "0"))))
+	if ifc, isIface := in.AssertedType.Underlying().(*types.Interface); isIface {
+		if types.Implements(in.X.Type(), ifc) {
+			// the static type already satisfies the interface: only nil fails
+			ok = Not(Eq(v.F[0].T, "0"))
+		} else {
+			ok = x.ctx.Fresh("implements", SBool)
+			x.ctx.Assert(Implies(ok, Not(Eq(v.F[0].T, "0"))))
+		}
 		res = v
 	} else {
 		tid := Lit(int64(x.eng.typeID(in.AssertedType)))
@@ -796,6 +810,7 @@ func (x *FnExec) rangeNext(in *ssa.Next, st *State) {
 func (x *FnExec) finish(args []Val) {
 	con := x.con
 	fn := x.fn
+	x.handleDeferredRecovery()
 	// postconditions at every return
 	for _, r := range x.rets {
 		env := x.envFor(con, fn, args, r.results, r.st.heaps, x.entry.heaps, x.entry.alloc)
@@ -1015,4 +1030,55 @@ func (x *FnExec) globalLiteral(g *ssa.Global, st *State) (Term, bool) {
 		}
 	}
 	return "", false
+}
+
+// handleDeferredRecovery: a panic raised while deferred calls are registered first runs them
+// (LIFO) in "panicking" mode: ghost(panicking) == 1 and ghost(panicTyp) holds the dynamic
+// type of the value; recover() reads and clears that state. If the state is cleared the
+// function returns normally through its recover block, otherwise the panic propagates.
+func (x *FnExec) handleDeferredRecovery() {
+	if len(x.deferStack) == 0 || x.fn.Recover == nil {
+		return
+	}
+	pending := x.panics
+	x.panics = nil
+	for _, ps := range pending {
+		if ps.final || ps.nDefers == 0 {
+			x.panics = append(x.panics, ps)
+			continue
+		}
+		st := ps.st.clone()
+		typ := ps.ptyp
+		if typ == "" {
+			typ = x.ctx.Fresh("panictyp", SInt)
+			x.ctx.Assert(Gt(typ, "0"))
+		}
+		x.setGhost(st, "panicking", "1")
+		x.setGhost(st, "panicTyp", typ)
+		x.inDefers = true
+		for i := ps.nDefers - 1; i >= 0; i-- {
+			d := x.deferStack[i]
+			x.call(d.instr, d.instr.Common(), st)
+		}
+		x.inDefers = false
+		still := Eq(Sel(x.getHeap(st, "ghost:panicking", false), "0"), "1")
+		// not recovered: the original panic continues
+		cont := st.clone()
+		cont.reach = x.ctx.Define("R_panic", SBool, And(st.reach, still))
+		x.panics = append(x.panics, exitRec{st: cont, what: ps.what + " (not recovered)", ptyp: typ, final: true})
+		// recovered: control resumes in the recover block, which returns the named results
+		rec := st.clone()
+		rec.reach = x.ctx.Define("R_recovered", SBool, And(st.reach, Not(still)))
+		for _, in := range x.fn.Recover.Instrs {
+			if !x.execInstr(x.fn.Recover, in, rec) {
+				break
+			}
+		}
+	}
+}
+
+func (x *FnExec) setGhost(st *State, name string, v Term) {
+	key := "ghost:" + name
+	h := x.getHeap(st, key, false)
+	st.heaps[key] = x.ctx.Define("H_"+key, SArrI, Sto(h, "0", v))
 }
